@@ -22,6 +22,7 @@ var zzPKs = [][]uint32{nil, {0}, {1}, {0, 1}, {1, 0}}
 type zzCfg struct {
 	nrows, ncols, pk, cellLen, removed int
 	emptyKeyRow                        bool
+	emptyCells                         bool
 }
 
 func zzInput(c zzCfg) [][]string {
@@ -31,6 +32,10 @@ func zzInput(c zzCfg) [][]string {
 		for j := range in[i] {
 			l := c.cellLen
 			if c.emptyKeyRow && i == 0 {
+				l = 0
+			}
+			if c.emptyCells && zzverif.Bool("emptyCell") {
+				// any cell may be empty (the explorer decides which)
 				l = 0
 			}
 			in[i][j] = zzverif.String("cell", l)
@@ -190,7 +195,7 @@ func zzRowsOut(s *Sorter, c zzCfg) [][]string {
 
 func zzParams() zzCfg {
 	return zzCfg{nrows: zzverif.Param("rows", 2), ncols: zzverif.Param("cols", 2), pk: zzverif.Param("pk", 1), cellLen: zzverif.Param("cellLen", 1),
-		removed: zzverif.Param("removed", -1), emptyKeyRow: zzverif.Param("emptyKey", 0) == 1}
+		removed: zzverif.Param("removed", -1), emptyKeyRow: zzverif.Param("emptyKey", 0) == 1, emptyCells: zzverif.Param("emptyCells", 0) == 1}
 }
 
 func zzRegions(c zzCfg, in [][]string) {
